@@ -237,11 +237,13 @@ class C01(Property):
                 out.append(Finding("model", c, "no verdict from the declarative grammar: %s" % (mc,)))
                 continue
             verdict, oper = mc[1], mc[2]
-            if len(mc) > 3 and mc[3] in ("flat_ok", "chain_ok"):
+            if len(mc) > 3 and mc[3] in ("flat_ok", "chain_ok", "tree_ok"):
                 k3 = "theorem_applies(%s)" % mc[3]
                 dist[k3] = dist.get(k3, 0) + 1
                 if verdict.startswith("ACCEPT"):
                     dist["accepted_under_theorem"] = dist.get("accepted_under_theorem", 0) + 1
+                if verdict.startswith("REJECT") and mc[3] == "flat_ok":
+                    dist["rejected_under_theorem"] = dist.get("rejected_under_theorem", 0) + 1
             vk = verdict.split(" ", 1)[0]
             dist[vk] = dist.get(vk, 0) + 1
             roles[c.tags["role"] + ":" + vk] = roles.get(c.tags["role"] + ":" + vk, 0) + 1
